@@ -108,6 +108,40 @@ def run(chk: core.Check, n: int):
                               {"pivot": [float(gp[c][0]) for c in range(3)], "position_of_first_track": [float(gpos[c][0]) for c in range(3)], "record_position": rp},
                               {"pivot": list(pv), "position_of_first_track": [float(want[c][0]) for c in range(3)]}, doc)
             break
+    # one common (scalar) pivot of special shape - on a coordinate axis, in a coordinate plane, the origin, signed zeros, tiny components -
+    # through every construction form of the array kind: the stored pivot is the requested one, position follows the documented formula,
+    # and array / record agree with the object built from the same numbers
+    m = min(n, 12)
+    z0 = float(rng.uniform(1, 9))
+    specials = [(0.0, 0.0, z0), (0.0, 0.0, -z0), (z0, 0.0, 0.0), (0.0, -z0, 0.0), (0.0, 0.0, 0.0), (-0.0, 0.0, z0), (1e-300, 0.0, z0), (z0, z0, 0.0), (0.0, z0, 2 * z0), (3, 4, 5)]
+    par = np.column_stack([h["dr"][:m], h["phi0"][:m], h["kappa"][:m], h["dz"][:m], h["tanl"][:m]])
+    for pv in specials:
+        forms = {
+            "helix_awk(helix, pivot=tuple)": lambda: pybes3.helix_awk(ak.Array(par), pivot=pv),
+            "helix_awk(helix=, pivot=vector)": lambda: pybes3.helix_awk(helix=ak.Array(par), pivot=vector.obj(x=pv[0], y=pv[1], z=pv[2])),
+            "helix_awk(dr=..., pivot=tuple)": lambda: pybes3.helix_awk(dr=ak.Array(par[:, 0]), phi0=ak.Array(par[:, 1]), kappa=ak.Array(par[:, 2]), dz=ak.Array(par[:, 3]), tanl=ak.Array(par[:, 4]), pivot=pv),
+        }
+        objs = [pybes3.helix_obj(*par[i], pivot=pv) for i in range(m)]
+        want_pos = np.array([[pv[0] + par[i, 0] * math.cos(par[i, 1]), pv[1] + par[i, 0] * math.sin(par[i, 1]), pv[2] + par[i, 3]] for i in range(m)])
+        forms["helix_awk(momentum, position, charge, pivot=tuple)"] = lambda: pybes3.helix_awk(
+            momentum=ak.zip({"pt": [o.momentum.pt for o in objs], "phi": [o.momentum.phi for o in objs], "pz": [o.momentum.pz for o in objs]}, with_name="Momentum3D"),
+            position=ak.zip({"x": want_pos[:, 0], "y": want_pos[:, 1], "z": want_pos[:, 2]}, with_name="Vector3D"), charge=ak.Array([o.charge for o in objs]), pivot=pv)
+        for fname, build in forms.items():
+            a = build()
+            chk.count(m, key=f"special-pivot-{fname}")
+            gp = np.column_stack([ak.to_numpy(a.pivot[c]).astype(float) for c in "xyz"])
+            gpos = np.column_stack([ak.to_numpy(a.position[c]).astype(float) for c in "xyz"])
+            opos = np.array([[o.position.x, o.position.y, o.position.z] for o in objs])
+            rp = a[0].position
+            okp = (gp == np.array([float(x) for x in pv])).all() and hc.close(gpos, want_pos, atol=1e-9).all() and hc.close(gpos, opos, atol=1e-9).all() \
+                and all(hc.close([float(rp.x), float(rp.y), float(rp.z)], want_pos[0], atol=1e-9))
+            if "momentum" in fname:
+                okp = okp and hc.close(ak.to_numpy(a.dz), par[:, 3], atol=1e-9).all() and (hc.close(ak.to_numpy(a.dr), par[:, 0], atol=1e-9) | (np.abs(par[:, 0]) < 1e-9)).all()
+            if not okp:
+                chk.failing_input(f"{fname} with one common pivot: stored pivot / position / round trip", {"pivot": [float(x) for x in pv], "helix_of_first_track": par[0].tolist()},
+                                  {"stored_pivot_of_first_track": gp[0].tolist(), "position_of_first_track": gpos[0].tolist(), "dz_of_first_track": float(a.dz[0])},
+                                  {"pivot": [float(x) for x in pv], "position_of_first_track": want_pos[0].tolist(), "dz_of_first_track": float(par[0, 3])}, doc + "; the three container kinds agree")
+                return mism
     # fromPhysics model vs implementation
     fp = hc.model_lines("fp", np.column_stack([ak.to_numpy(apos.x), ak.to_numpy(apos.y), ak.to_numpy(apos.z), ak.to_numpy(amom.pt), ak.to_numpy(amom.phi), ak.to_numpy(amom.pz), acharge.astype(float), h["piv"]]))
     okm = hc.close(fp[:, 0], ak.to_numpy(arr2.dr), atol=1e-9 * scale) & hc.circ_close(fp[:, 1], ak.to_numpy(arr2.phi0), 1e-9) & hc.close(fp[:, 2], ak.to_numpy(arr2.kappa)) & hc.close(fp[:, 3], ak.to_numpy(arr2.dz), atol=1e-9 * scale)
